@@ -12,7 +12,16 @@ Property theorems over the executable model `PvModel.Mkracc` (helper lemmas in
   any other transfer on another account's behalf goes through that account's authz grant;
 * the authz grant over ANY sequence of uses / of transfers: exact accounting
   (`useSeq_accounting`), the limit is never exceeded (`limit_never_exceeded`,
-  `transfers_under_grant_within_limit`).
+  `transfers_under_grant_within_limit`);
+* both transfer endpoints (`MsgTransferRequest`, `MsgIbcTransferRequest`) over the authz STORE
+  (one grant per (granter, grantee)): a message reads and writes only the grant the account the
+  coins leave gave to the administrator that signs (`transfer_msg_effect`), needs exactly that
+  grant (`transfer_msg_needs_the_sources_grant`, `no_grant_from_source_no_transfer`,
+  `transfer_msg_ignores_other_grants` — a grant in the other direction or to another
+  administrator never stands in), and over ANY history of messages of both kinds, by any
+  administrators out of any accounts, each grant is used within its limit and allow list
+  (`msgSeq_refines_useSeq`, `transfer_messages_within_each_grant`,
+  `transfer_messages_recipients_on_allow_list_when_kept`, `no_grant_nothing_charged`).
 
 The allow-list clause ("every recipient is on the grant's allow list if it has one") is FALSE
 of the code as found: `Accept` returns `Updated: &MarkerTransferAuthorization{TransferLimit:
@@ -657,5 +666,266 @@ theorem transfers_recipients_on_allow_list_when_kept (c : Cfg) (g : Grant) (xs :
   have h := recipients_on_allow_list_when_kept g (transferSeqWith true c (some g) xs).2
   rw [transferSeq_refines_useSeq] at h
   exact h
+
+/-! ### The authz store: only the grant the source account gave the signing administrator counts -/
+
+theorem put_same (t : AuthzStore) (p : Pair) (g : Option Grant) : (t.put p g) p = g := by
+  simp [AuthzStore.put]
+
+theorem put_other (t : AuthzStore) {p q : Pair} (g : Option Grant) (h : q ≠ p) : (t.put p g) q = t q := by
+  simp [AuthzStore.put, h]
+
+/-- What `IbcTransferCoin`'s guard leaves of the grant it is given. -/
+theorem ibc_transfer_result {keep : Bool} {c : Cfg} {selfFrom : Bool} {stored s' : Option Grant} {u : Use}
+    (h : ibcTransferCoinWith keep c selfFrom stored u = .ok s') :
+    (selfFrom = false → authzHandlerWith keep stored u = .ok s') ∧ (selfFrom = true → s' = stored) := by
+  unfold ibcTransferCoinWith at h
+  split at h
+  · cases h
+  · split at h
+    · cases h
+    · cases selfFrom
+      · simp only [Bool.not_false, if_true] at h
+        exact ⟨fun _ => h, fun hh => (by cases hh)⟩
+      · simp only [Bool.not_true] at h
+        injection h with h
+        exact ⟨fun hh => (by cases hh), fun _ => h.symm⟩
+
+/-- **What a transfer message — `MsgTransferRequest` or `MsgIbcTransferRequest` — does to the
+authz store**: it reads and writes one entry only, the grant given BY the account the coins
+leave TO the administrator that signs. When the message goes through a grant
+(`TMsg.charges`), that entry becomes what `authzHandler` returns for it; otherwise it stays.
+Every other grant — the administrator's to the source account, the source's to another
+administrator, anybody else's — is exactly as it was. -/
+theorem transfer_msg_effect {keep : Bool} {t t' : AuthzStore} {m : TMsg} (h : m.runWith keep t = .ok t') :
+    (∀ q, q ≠ (m.from_, m.admin) → t' q = t q)
+    ∧ (m.charges = true →
+        authzHandlerWith keep (t (m.from_, m.admin)) m.x.use = .ok (t' (m.from_, m.admin)))
+    ∧ (m.charges = false → t' (m.from_, m.admin) = t (m.from_, m.admin)) := by
+  obtain ⟨ibc, admin, from_, c, x⟩ := m
+  cases ibc
+  · -- MsgTransferRequest
+    simp only [TMsg.runWith, transferMsgWith, Bool.false_eq_true, if_false] at h
+    cases hr : transferCoinWith keep c { x with selfFrom := admin == from_, stored := t (from_, admin) } with
+    | error e => rw [hr] at h; cases h
+    | ok s' =>
+      rw [hr] at h
+      injection h with h; subst h
+      have hres := transfer_result hr
+      refine ⟨fun q hq => put_other t s' hq, fun hc => ?_, fun hc => ?_⟩
+      · rw [put_same]
+        exact hres.1 (by simpa [TMsg.charges, usesGrant] using hc)
+      · rw [put_same]
+        exact hres.2 (by simpa [TMsg.charges, usesGrant] using hc)
+  · -- MsgIbcTransferRequest
+    simp only [TMsg.runWith, ibcTransferMsgWith, if_true] at h
+    split at h
+    · cases h
+    · cases hr : ibcTransferCoinWith keep c (admin == from_) (t (from_, admin)) x.use with
+      | error e => rw [hr] at h; cases h
+      | ok s' =>
+        rw [hr] at h
+        simp only at h
+        split at h
+        · cases h
+        · injection h with h; subst h
+          have hres := ibc_transfer_result hr
+          refine ⟨fun q hq => put_other t s' hq, fun hc => ?_, fun hc => ?_⟩
+          · rw [put_same]
+            exact hres.1 (by simpa [TMsg.charges] using hc)
+          · rw [put_same]
+            exact hres.2 (by simpa [TMsg.charges] using hc)
+
+/-- **Any transfer made on another account's behalf, through either endpoint, requires THAT
+account's authz grant to the administrator that signs** — unless it is a forced
+`MsgTransferRequest` (marker allows forced transfers, administrator has `force_transfer`, source
+neither module nor contract). A grant in the other direction, or to another administrator,
+never stands in: only the entry `(from, admin)` of the store is consulted. -/
+theorem transfer_msg_needs_the_sources_grant {keep : Bool} {t t' : AuthzStore} {m : TMsg}
+    (h : m.runWith keep t = .ok t') (hne : (m.admin == m.from_) = false) :
+    (m.ibc = false ∧ m.cfg.forced = true ∧ m.cfg.has .forceTransfer = true
+        ∧ moduleOrContractLike m.x.src = false)
+    ∨ grantCovers (t (m.from_, m.admin)) m.x.use = true := by
+  have heff := (transfer_msg_effect h).2.1
+  cases hc : m.charges
+  · left
+    obtain ⟨ibc, admin, from_, c, x⟩ := m
+    cases ibc
+    · simp only [TMsg.runWith, transferMsgWith, Bool.false_eq_true, if_false] at h
+      cases hr : transferCoinWith keep c { x with selfFrom := admin == from_, stored := t (from_, admin) } with
+      | error e => rw [hr] at h; cases h
+      | ok s' =>
+        have hns : ({ x with selfFrom := admin == from_, stored := t (from_, admin) } : Xfer).selfFrom = false := hne
+        rcases transfer_on_behalf_needs_grant_or_force hr hns with ⟨h1, h2, h3, _⟩ | ⟨_, h2⟩
+        · exact ⟨rfl, h1, h2, h3⟩
+        · -- went through the grant: contradicts `charges = false`
+          simp only [TMsg.charges, Bool.false_eq_true, if_false, usesGrant] at hc
+          simp only at hne
+          have hfl := (transfer_ok_iff_flowchart keep c _).mp ⟨s', hr⟩
+          simp only [hne, Bool.not_false, Bool.true_and, Bool.not_eq_false'] at hc
+          simp only [Bool.and_eq_true] at hc
+          exact ⟨rfl, hc.1, hc.2, by
+            simp only [transferAllowed, hne, hc.1, hc.2, Bool.and_eq_true, Bool.or_eq_true, Bool.false_or,
+              Bool.and_self, if_true] at hfl
+            simpa using hfl.1.1.2⟩
+    · simp [TMsg.charges, hne] at hc
+  · right
+    exact (authzHandler_ok_iff keep _ _).mp ⟨_, heff hc⟩
+
+/-- In particular: without a grant from the source account to the signing administrator the
+message is refused, whatever other grants the store holds. -/
+theorem no_grant_from_source_no_transfer {keep : Bool} {t : AuthzStore} {m : TMsg}
+    (hne : (m.admin == m.from_) = false) (hnone : t (m.from_, m.admin) = none)
+    (hnf : m.ibc = true ∨ (m.cfg.forced && m.cfg.has .forceTransfer) = false) :
+    ∃ e, m.runWith keep t = .error e := by
+  cases hr : m.runWith keep t with
+  | error e => exact ⟨e, rfl⟩
+  | ok t' =>
+    exfalso
+    rcases transfer_msg_needs_the_sources_grant hr hne with ⟨h1, h2, h3, _⟩ | hcov
+    · rcases hnf with hi | hf
+      · rw [h1] at hi; cases hi
+      · simp [h2, h3] at hf
+    · simp [hnone, grantCovers] at hcov
+
+/-- The outcome of a transfer message depends on no other grant: stores that agree on the
+entry `(from, admin)` accept the same messages. -/
+theorem transfer_msg_ignores_other_grants (keep : Bool) (t₁ t₂ : AuthzStore) (m : TMsg)
+    (h : t₁ (m.from_, m.admin) = t₂ (m.from_, m.admin)) :
+    (∃ t', m.runWith keep t₁ = .ok t') ↔ (∃ t', m.runWith keep t₂ = .ok t') := by
+  obtain ⟨ibc, admin, from_, c, x⟩ := m
+  simp only at h
+  cases ibc
+  · simp only [TMsg.runWith, transferMsgWith, Bool.false_eq_true, if_false, h]
+    cases transferCoinWith keep c { x with selfFrom := admin == from_, stored := t₂ (from_, admin) } <;> simp
+  · simp only [TMsg.runWith, ibcTransferMsgWith, if_true, h]
+    split
+    · simp
+    · cases ibcTransferCoinWith keep c (admin == from_) (t₂ (from_, admin)) x.use with
+      | error e => simp
+      | ok s' => simp only; split <;> simp
+
+/-- `MsgIbcTransferRequest` succeeds only for a restricted marker, an administrator with
+`transfer` (`force_transfer` does not help), a positive amount the sender holds, and — out of
+another account — that account's covering grant to the administrator. -/
+theorem ibc_transfer_msg_requires_right_and_senders_grant {keep : Bool} {c : Cfg} {t t' : AuthzStore}
+    {admin from_ : String} {u : Use} {bal : Int}
+    (h : ibcTransferMsgWith keep c t admin from_ u bal = .ok t') :
+    c.mtype = .restricted ∧ c.has .transfer = true ∧ 0 < u.amount ∧ u.amount ≤ bal
+    ∧ ((admin == from_) = true ∨ grantCovers (t (from_, admin)) u = true) := by
+  unfold ibcTransferMsgWith at h
+  split at h
+  · cases h
+  · rename_i hpos
+    cases hr : ibcTransferCoinWith keep c (admin == from_) (t (from_, admin)) u with
+    | error e => rw [hr] at h; cases h
+    | ok s' =>
+      rw [hr] at h
+      simp only at h
+      split at h
+      · cases h
+      · rename_i hbal
+        obtain ⟨h1, h2, h3⟩ := ibc_transfer_requires_right_and_grant hr
+        exact ⟨h1, h2, by omega, by omega, h3⟩
+
+-- non-vacuity: with the sender's grant to the administrator the ibc transfer goes through and
+-- debits that grant; with only a grant in the other direction it is refused
+example :
+    (ibcTransferMsgWith true (exCfg [.transfer] .active .restricted)
+        (AuthzStore.empty.put ("S", "C") (some { limit := [("mkrtok", 10)], allow := [] })) "C" "S"
+        ⟨"mkrtok", 4, "P1"⟩ 20).toOption.map (fun t => (t ("S", "C")).map (·.limit))
+      = some (some [("mkrtok", 10), ("mkrtok", -4)])
+    ∧ (ibcTransferMsgWith true (exCfg [.transfer] .active .restricted)
+        (AuthzStore.empty.put ("C", "S") (some { limit := [("mkrtok", 10)], allow := [] })) "C" "S"
+        ⟨"mkrtok", 4, "P1"⟩ 20).toOption.isSome = false := by decide
+
+/-! ### Histories of transfer messages of both kinds over the authz store -/
+
+theorem usesOf_cons (p q : Pair) (u : Use) (cs : List (Pair × Use)) :
+    usesOf p ((q, u) :: cs) = if q = p then u :: usesOf p cs else usesOf p cs := by
+  by_cases h : q = p <;> simp [usesOf, h]
+
+/-- **A history of transfer messages is, grant by grant, a history of uses of that grant**:
+for every `(granter, grantee)` pair, replaying on the authz handler exactly the transfers
+charged to it accepts every one of them and ends with the entry the store holds — whatever
+else happens in the history (other administrators, other endpoints, other grants, rejected
+messages, forced transfers, own-account transfers). -/
+theorem msgSeq_refines_useSeq (keep : Bool) (ms : List TMsg) (t : AuthzStore) (p : Pair) :
+    useSeqWith keep (t p) (usesOf p (msgSeqWith keep t ms).2)
+      = ((msgSeqWith keep t ms).1 p, usesOf p (msgSeqWith keep t ms).2) := by
+  induction ms generalizing t with
+  | nil => simp [msgSeqWith, usesOf, useSeqWith]
+  | cons m rest ih =>
+    simp only [msgSeqWith]
+    cases h : m.runWith keep t with
+    | error e => simpa using ih t
+    | ok t' =>
+      obtain ⟨hframe, hch, hnch⟩ := transfer_msg_effect h
+      have ih' := ih t'
+      simp only
+      cases hc : m.charges
+      · have htp : t' p = t p := by
+          by_cases hp : p = (m.from_, m.admin)
+          · rw [hp]; exact hnch hc
+          · exact hframe p hp
+        simp only [Bool.false_eq_true, if_false]
+        rw [← htp]; exact ih'
+      · simp only [if_true, usesOf_cons]
+        by_cases hp : (m.from_, m.admin) = p
+        · simp only [hp, if_true]
+          have ha := hch hc
+          rw [hp] at ha
+          simp only [useSeqWith, ha]
+          rw [ih']
+        · simp only [hp, if_false]
+          have htp : t' p = t p := hframe p (fun hh => hp hh.symm)
+          rw [← htp]; exact ih'
+
+/-- **Across any sequence of transfer messages — `MsgTransferRequest` and
+`MsgIbcTransferRequest`, by any administrators, out of any accounts — the total moved under
+each grant never exceeds that grant's limit.** -/
+theorem transfer_messages_within_each_grant (keep : Bool) (ms : List TMsg) (t : AuthzStore) (p : Pair)
+    (g : Grant) (ht : t p = some g) (hg : Coins.nonneg g.limit = true) :
+    WithinLimit g (usesOf p (msgSeqWith keep t ms).2) := by
+  have h := limit_never_exceeded keep g (usesOf p (msgSeqWith keep t ms).2) hg
+  have hr := msgSeq_refines_useSeq keep ms t p
+  rw [ht] at hr
+  rw [hr] at h
+  exact h
+
+/-- …and with the allow list carried over by `Accept`, every recipient of a transfer charged
+to a grant is on that grant's allow list. -/
+theorem transfer_messages_recipients_on_allow_list_when_kept (ms : List TMsg) (t : AuthzStore)
+    (p : Pair) (g : Grant) (ht : t p = some g) :
+    RecipientsAllowed g (usesOf p (msgSeqWith true t ms).2) := by
+  have h := recipients_on_allow_list_when_kept g (usesOf p (msgSeqWith true t ms).2)
+  have hr := msgSeq_refines_useSeq true ms t p
+  rw [ht] at hr
+  rw [hr] at h
+  exact h
+
+/-- A pair without a grant is never charged: nothing moves under a grant that does not exist
+(a grant of another pair cannot be used in its place). -/
+theorem no_grant_nothing_charged (keep : Bool) (ms : List TMsg) (t : AuthzStore) (p : Pair)
+    (ht : t p = none) : usesOf p (msgSeqWith keep t ms).2 = [] := by
+  have hr := msgSeq_refines_useSeq keep ms t p
+  rw [ht, useSeq_none] at hr
+  exact (Prod.mk.inj hr).2.symm
+
+-- non-vacuity: a history with both endpoints, two administrators and grants in both
+-- directions: each transfer is charged to the grant source → signer, the others stay
+example :
+    let g (n : Int) : Option Grant := some { limit := [("mkrtok", n)], allow := [] }
+    let t : AuthzStore := ((AuthzStore.empty.put ("S", "C") (g 10)).put ("C", "S") (g 50)).put ("S", "K") (g 7)
+    let x : Xfer := exXfer { exModuleLike with seqNonZero := true } none
+    let c := exCfg [.transfer] .active .restricted
+    let r := msgSeqWith true t
+      [⟨true, "C", "S", c, x⟩, ⟨false, "K", "S", c, x⟩, ⟨true, "C", "S", c, x⟩, ⟨true, "C", "S", c, x⟩,
+       ⟨false, "K", "S", c, x⟩]
+    usesOf ("S", "C") r.2 = [⟨"mkrtok", 5, "P1"⟩, ⟨"mkrtok", 5, "P1"⟩]
+    ∧ usesOf ("S", "K") r.2 = [⟨"mkrtok", 5, "P1"⟩]
+    ∧ usesOf ("C", "S") r.2 = []
+    ∧ r.1 ("S", "C") = none
+    ∧ (r.1 ("C", "S")).map (·.limit) = some [("mkrtok", 50)] := by decide
 
 end PvProofs.C12
